@@ -466,6 +466,86 @@ func init() {
 	reg("sort.Slice", sortSlice)
 	reg("sort.SliceStable", sortSlice)
 
+	// ---- file system and user database: stubs answered by the harness (vStat / vUserLookup) ----
+	harnessFunc := func(r *Run, name string) *ssa.Function {
+		for p := range r.E.harnessPkgs {
+			if f := p.Func(name); f != nil {
+				return f
+			}
+		}
+		return nil
+	}
+	stat := func(r *Run, caller *frame, fn *ssa.Function, args []Value) Value {
+		kind := 0 // 0: does not exist, 1: file, 2: directory
+		if f := harnessFunc(r, "vStat"); f != nil {
+			kind = cint(r.callFn(f, []Value{args[0]}, nil, caller))
+		}
+		if kind == 0 {
+			pe := r.E.lookupType("io/fs", "PathError")
+			errno := Iface{T: r.E.lookupType("syscall", "Errno"), V: smt.Const(64, 2)}
+			return Tuple{Iface{}, Iface{T: types.NewPointer(pe), V: r.newObject(pe, mkStr("stat"), args[0], errno)}}
+		}
+		isDir := kind == 2
+		fi := &nativeObj{kind: "fileinfo"}
+		fi.call = func(r *Run, method string, as []Value) Value {
+			switch method {
+			case "IsDir":
+				return smt.Bool(isDir)
+			case "Mode":
+				if isDir {
+					return smt.Const(32, 1<<31|0o755)
+				}
+				return smt.Const(32, 0o644)
+			case "Size":
+				return smt.Const(64, 0)
+			case "Name":
+				return mkStr("stub")
+			}
+			panic(unsupported("FileInfo." + method + " on stat stub"))
+		}
+		return Tuple{Iface{T: r.E.fileInfoType(), V: fi}, Iface{}}
+	}
+	reg("os.Stat", stat)
+	reg("os.Lstat", stat)
+	userLookup := func(byID bool, group bool) Intrinsic {
+		return func(r *Run, caller *frame, fn *ssa.Function, args []Value) Value {
+			// harness: vUserLookup(name string, byID, group bool) (id string, name string, ok bool)
+			f := harnessFunc(r, "vUserLookup")
+			found := false
+			var id, name Value = mkStr(""), mkStr("")
+			if f != nil {
+				res := r.callFn(f, []Value{args[0], smt.Bool(byID), smt.Bool(group)}, nil, caller).(Tuple)
+				id, name = res[0], res[1]
+				found = r.branch(r.asInt(res[2]))
+			}
+			tn, en := "User", "UnknownUserError"
+			if group {
+				tn, en = "Group", "UnknownGroupError"
+			}
+			if byID {
+				en = map[bool]string{false: "UnknownUserIdError", true: "UnknownGroupIdError"}[group]
+			}
+			if !found {
+				et := r.E.lookupType("os/user", en)
+				var ev Value = args[0]
+				if byID && !group {
+					ev = smt.Const(64, 0) // UnknownUserIdError is an int
+				}
+				return Tuple{Ptr{}, Iface{T: et, V: ev}}
+			}
+			t := r.E.lookupType("os/user", tn)
+			if group {
+				return Tuple{r.newObject(t, id, name), Iface{}}
+			}
+			return Tuple{r.newObject(t, id, mkStr("0"), name, name, mkStr("/")), Iface{}}
+		}
+	}
+	reg("os/user.Lookup", userLookup(false, false))
+	reg("os/user.LookupId", userLookup(true, false))
+	reg("os/user.LookupGroup", userLookup(false, true))
+	reg("os/user.LookupGroupId", userLookup(true, true))
+	reg("(*flag.FlagSet).usage", func(r *Run, _ *frame, _ *ssa.Function, args []Value) Value { return nil })
+
 	// ---- os ----
 	reg("os.NewFile", func(r *Run, _ *frame, _ *ssa.Function, args []Value) Value { return Poison{"os.NewFile"} })
 	reg("syscall.Getrlimit", func(r *Run, _ *frame, _ *ssa.Function, args []Value) Value {
@@ -552,11 +632,14 @@ func (r *Run) sprintValue(ops []Value, ln bool) Value {
 
 // writeTo implements the io.Writer side of Fprintf: calls w.Write(bytes) on the interface value.
 func (r *Run) writeTo(w Value, s Value) Value {
+	ifc := w.(Iface)
 	str, ok := s.(Str)
 	if !ok {
+		if ifc.T != nil && ifc.T.String() == "io.discard" {
+			return Tuple{smt.Const(64, 0), Iface{}} // the text goes nowhere
+		}
 		panic(unsupported("Fprintf with unmodelled text"))
 	}
-	ifc := w.(Iface)
 	res, ok := r.invokeMethod(ifc, "Write", r.newByteSlice(str.B))
 	if !ok {
 		panic(unsupported("Fprintf: writer without Write method"))
